@@ -6,8 +6,9 @@
    clevel_table) is regenerated from emg3d/solver.py on every run.
    Model/Hierarchy.v is the hand model of the recursion built on top of them;
    it is compared with the real solver's call trace by py/props/c05.py. *)
-From Coq Require Import ZArith List Bool Lia.
+From Coq Require Import ZArith List Bool Lia Field.
 From V Require Import Gen.SolverHelpers Model.Hierarchy Proofs.Hierarchy Model.MGSem Proofs.MGSem.
+From V Require Import Base.FieldSig Gen.CoreAmat Gen.CoreRestrict Model.Prolong Proofs.MGContracts.
 Import ListNotations.
 Local Open Scope Z_scope.
 
@@ -184,6 +185,46 @@ Section C05sem.
   Qed.
 End C05sem.
 
+(* 8b. Three of the four contracts, for the REGENERATED kernels (any field with
+   1+1 <> 0, every shape, pattern, weights, coefficients): the residual of the
+   zero field is the source (A 0 = 0), core.restrict maps an all-zero residual
+   to zero, the prolongation of an all-zero coarse field adds nothing.  (The
+   fourth -- a smoother returns an exact solution unchanged -- is C03's
+   point_/line_*_smoother_leaves_exact_solution_unchanged.) *)
+Section C05contracts.
+  Context {F : Type} {O : FOps F}.
+  Hypothesis Fth : field_theory F0 F1 Fadd Fmul Fsub Fopp Fdiv Finv (@eq F).
+  Hypothesis two_nz : (1 + 1)%F <> 0%F.
+  Let z3 : Z -> Z -> Z -> F := fun _ _ _ => 0%F.
+
+  Theorem residual_of_the_zero_field_is_the_source
+      (eta_x eta_y eta_z zeta : Z -> Z -> Z -> F) (hx hy hz : Z -> F) nx ny nz
+      (sx sy sz : Z -> Z -> Z -> F) :
+    (forall i, hx i <> 0%F) -> (forall i, hy i <> 0%F) -> (forall i, hz i <> 0%F) ->
+    0 <= nx -> 0 <= ny -> 0 <= nz -> forall i j k,
+    AmatFIT.get3 (amat_x nx ny nz sx sy sz z3 z3 z3 eta_x eta_y eta_z zeta hx hy hz) i j k
+    = (sx i j k, sy i j k, sz i j k).
+  Proof.
+    intros Hx Hy Hz.
+    exact (residual_of_zero_field_is_the_source Fth two_nz eta_x eta_y eta_z zeta hx hy hz
+             Hx Hy Hz nx ny nz sx sy sz).
+  Qed.
+
+  Theorem restriction_of_a_zero_residual_is_zero
+      (wx wy wz : (Z -> F) * (Z -> F) * (Z -> F)) (cnx cny cnz nx ny nz scd : Z) :
+    0 <= scd <= 6 -> 0 <= cnx -> 0 <= cny -> 0 <= cnz -> forall i j k,
+    RestrictTensor.get3 (restrict cnx cny cnz nx ny nz z3 z3 z3 z3 z3 z3 wx wy wz scd) i j k
+    = (0%F, 0%F, 0%F).
+  Proof. exact (restriction_of_zero_residual_is_zero Fth wx wy wz cnx cny cnz nx ny nz scd). Qed.
+
+  Theorem prolongation_of_a_zero_coarse_field_adds_nothing
+      scd (xn yn zn : Z -> F) nx ny nz (ex ey ez : Z -> Z -> Z -> F) i j k :
+    prolong_x scd yn zn nx ny nz z3 ex i j k = ex i j k /\
+    prolong_y scd xn zn nx ny nz z3 ey i j k = ey i j k /\
+    prolong_z scd xn yn nx ny nz z3 ez i j k = ez i j k.
+  Proof. exact (prolongation_of_zero_adds_nothing Fth scd xn yn zn nx ny nz ex ey ez i j k). Qed.
+End C05contracts.
+
 (* non-vacuity: an instance meeting all contracts, on which the F-cycle over three
    levels keeps the exact field and moves an inexact one *)
 Example cycle_contracts_satisfiable :
@@ -219,4 +260,7 @@ Print Assumptions wf_example.
 Print Assumptions multigrid_cycle_is_a_total_function_of_the_field.
 Print Assumptions multigrid_cycle_leaves_exact_solution_unchanged.
 Print Assumptions any_number_of_cycles_leaves_exact_solution_unchanged.
+Print Assumptions residual_of_the_zero_field_is_the_source.
+Print Assumptions restriction_of_a_zero_residual_is_zero.
+Print Assumptions prolongation_of_a_zero_coarse_field_adds_nothing.
 Print Assumptions cycle_contracts_satisfiable.
